@@ -310,6 +310,38 @@ pub fn exec_views(lines: &[String]) -> Vec<String> {
                     None => "panic".into(),
                 }
             }
+            "vseq" => {
+                // several operations on ONE view instance (a view must not carry state of its own between them)
+                let subs: Vec<String> = t[3..].iter().map(|x| x.to_string()).collect();
+                match with_view(&mut app, t[1], t[2] == "rw", |st| {
+                    let mut outs = vec![];
+                    for sub in &subs {
+                        let f: Vec<&str> = sub.split(':').collect();
+                        outs.push(match f[0] {
+                            "g" => match st.get(&unhex(f[1])) {
+                                Some(v) => format!("some {}", hex(&v)),
+                                None => "none".into(),
+                            },
+                            "s" => {
+                                st.set(&unhex(f[1]), &unhex(f[2]));
+                                "ok".into()
+                            }
+                            "r" => {
+                                st.remove(&unhex(f[1]));
+                                "ok".into()
+                            }
+                            "R" => fmt_records(&st.range(unhex_opt(f[1]).as_deref(), unhex_opt(f[2]).as_deref(), ord(f[3])).collect::<Vec<_>>()),
+                            "K" => fmt_list(&st.range_keys(unhex_opt(f[1]).as_deref(), unhex_opt(f[2]).as_deref(), ord(f[3])).collect::<Vec<_>>()),
+                            "V" => fmt_list(&st.range_values(unhex_opt(f[1]).as_deref(), unhex_opt(f[2]).as_deref(), ord(f[3])).collect::<Vec<_>>()),
+                            _ => "bad-op".into(),
+                        });
+                    }
+                    outs.join("|")
+                }) {
+                    Some(r) => r,
+                    None => "panic".into(),
+                }
+            }
             "vrange" => {
                 let (s, e, o) = (unhex_opt(t[3]), unhex_opt(t[4]), ord(t[5]));
                 match with_view(&mut app, t[1], t[2] == "rw", |st| {
@@ -438,6 +470,27 @@ pub fn gen_views(rng: &mut Rng, thorough: bool) -> Vec<String> {
             ops.push("dump-root".into());
         } else if r < 50 {
             ops.push(format!("vget {} {} {}", p, rw, rng.pick(vkeys)));
+        } else if r < 58 {
+            // a burst on one view instance: reads of a key right after it was written / removed through the same view
+            let k = rng.pick(vkeys).to_string();
+            let mut subs = vec![];
+            for _ in 0..rng.range(2, 6) {
+                let kk = if rng.chance(2, 3) { k.clone() } else { rng.pick(vkeys).to_string() };
+                subs.push(match rng.below(8) {
+                    0 | 1 => format!("g:{}", kk),
+                    2 | 3 => format!("s:{}:{}", kk, rng.pick(VALS)),
+                    4 | 5 => format!("r:{}", kk),
+                    _ => {
+                        let o = if rng.chance(1, 2) { "asc" } else { "desc" };
+                        let s = if rng.chance(1, 2) { "~".to_string() } else { rng.pick(vkeys).to_string() };
+                        let e = if rng.chance(1, 2) { "~".to_string() } else { rng.pick(vkeys).to_string() };
+                        format!("{}:{}:{}:{}", rng.pick(&["R", "R", "K", "V"]), s, e, o)
+                    }
+                });
+            }
+            subs.push(format!("g:{}", k));
+            ops.push(format!("vseq {} rw {}", p, subs.join(" ")));
+            ops.push("dump-root".into());
         } else if r < 90 {
             let o = if rng.chance(1, 2) { "asc" } else { "desc" };
             let s = if rng.chance(1, 2) { "~".to_string() } else { rng.pick(vkeys).to_string() };
